@@ -30,12 +30,13 @@ def type_of(v):
 
 
 class ProgGen:
-    def __init__(self, r, env=None, probes=False, max_depth=4, allow_host=(), illtyped=0.06, fn_arity=None):
+    def __init__(self, r, env=None, probes=False, max_depth=4, allow_host=(), illtyped=0.06, fn_arity=None, reentry=None):
         self.r = r
         self.env = dict(env or {})          # name -> type tag
         self.fn_arity = dict(fn_arity or {})  # name -> number of params for callable names
         self.max_depth = max_depth
         self.allow_host = tuple(allow_host)
+        self.reentry = list(reentry or ()) if 're' in tuple(allow_host) else []
         self.illtyped = illtyped
         self.probe_n = 0
         self.probes = probes
@@ -445,7 +446,9 @@ class ProgGen:
         r = self.r
         d = self.max_depth if depth is None else depth
         k = weighted(r, [('assign', 6), ('short', 3), ('setitem', 2.5), ('setitemop', 1.5), ('del', 1), ('expr', 4),
-                         ('deffn', 2), ('push', 1.5), ('mut', 1)])
+                         ('deffn', 2), ('push', 1.5), ('mut', 1), ('reenter', 2.2 if self.reentry else 0)])
+        if k == 'reenter':
+            return self.stmt_reenter(d)
         if k == 'assign':
             ty = self.pick_type()
             e = self.expr(ty, d)
@@ -495,6 +498,47 @@ class ProgGen:
             return self.stmt_deffn(d)
         self.kinds.add('exprstmt')
         return self.expr('any', d)
+
+    def stmt_reenter(self, d):
+        """A statement in which the host function re(i) calls back into the same parser while this one is being
+        evaluated (what re(i) does is listed in the world: a nested evaluation on the same or a fresh names mapping that
+        may rebind / mutate what this statement is working on, a parse, a partial name listing)."""
+        r = self.r
+        i = r.randrange(len(self.reentry))
+        spec = self.reentry[i]
+        call = ['call', 're', [['num', str(i)]], 'plain']
+        self.kinds.add('reenter')
+        x = spec.get('rebinds')
+        form = weighted(r, [('stmt', 3), ('short', 3 if spec.get('ret') == 'num' else 0), ('operand', 3 if spec.get('ret') == 'num' else 0), ('element', 2),
+                            ('in_lambda', 1.5 if spec.get('ret') == 'num' else 0)])
+        if form == 'short':
+            tgt = x if x and self.env.get(x) == 'num' else None
+            if tgt is None:
+                cands = [n for n, t in self.env.items() if t == 'num']
+                tgt = r.choice(cands) if cands else None
+            if tgt is not None:
+                return ['short', tgt, r.choice(['+=', '-=', '*=']), call]
+            form = 'operand'
+        if form == 'operand':
+            other = ['name', x] if x and self.env.get(x) == 'num' and r.random() < 0.7 else self.expr('num', 1)
+            e = ['bin', r.choice(['+', '-', '*']), other, call] if r.random() < 0.5 else ['bin', r.choice(['+', '-']), call, other]
+            v = self.new_var()
+            self.env[v] = 'num'
+            self.fn_arity.pop(v, None)
+            return ['assign', v, e]
+        if form == 'element':
+            m = spec.get('mutates')
+            items = [['name', m] if m and self.env.get(m) == 'list' and r.random() < 0.6 else self.expr(self.pick_scalar_type(), 0), call, self.expr(self.pick_scalar_type(), 0)]
+            v = self.new_var()
+            self.env[v] = 'any'
+            self.fn_arity.pop(v, None)
+            return ['assign', v, ['list', items]]
+        if form == 'in_lambda':
+            v = self.new_var()
+            self.env[v] = 'list'
+            self.fn_arity.pop(v, None)
+            return ['assign', v, ['call', 'map', [['list', [['num', '1'], ['num', '2']]], ['lambda', ['q'], ['bin', '+', ['name', 'q'], call]]], 'plain']]
+        return call
 
     def stmt_deffn(self, d=None):
         r = self.r
